@@ -8,6 +8,7 @@ hand-written part: shims, spec functions, lemmas, impl headers).
     //@fn <file> <Selector>               copy a function verbatim and splice the contract below into it
     //@  ret <name>                       name the return value:  -> T   becomes   -> (name: T)
     //@  rename <new>                     emit under another name (trait-impl methods emitted as inherent ones)
+    //@  opaque_body                      R7b: emit signature + contract with an `unimplemented!()` body (assumed contract of a callee outside the unit)
     //@  attr <text>                      attribute line put in front (e.g. #[verifier::external_body])
     //@  sig "<a>" => "<b>"               exact-text substitution in the signature, must match once (R6)
     //@  subst "<a>" => "<b>"             exact-text substitution in the body, must match once (R6)
@@ -119,6 +120,7 @@ class FnDirective:
     cuts: list[tuple[str, str, str, int]] = field(default_factory=list)
     cut_readonly: set = field(default_factory=set)
     external_body: bool = False
+    opaque_body: bool = False
     no_vacuity: bool = False
 
 
@@ -143,6 +145,7 @@ class FnInfo:
     out_first: int = 0
     out_last: int = 0
     external_body: bool = False
+    opaque_body: bool = False
     callees: list[str] = field(default_factory=list)
     sect_idx: dict = field(default_factory=dict)   # section -> (first, last+1) output indices
     body_first: int = 0
@@ -320,6 +323,13 @@ def parse_template(path: str):
                     d.attrs.append(arg)
                 elif key == 'external_body':
                     d.external_body = True
+                    d.attrs.append('#[verifier::external_body]')
+                elif key == 'opaque_body':
+                    # R7b: signature + contract only; the body is NOT copied (it need not even type-check against the
+                    # unit's shims). The contract is an assumption, listed as such; no vacuity twin.
+                    d.external_body = True
+                    d.opaque_body = True
+                    d.no_vacuity = True
                     d.attrs.append('#[verifier::external_body]')
                 elif key == 'no_vacuity':
                     d.no_vacuity = True
@@ -988,12 +998,17 @@ def emit(unit_dir: str, repo_root: str) -> Emitted:
             # R1: attrs/doc comments before the fn are simply not copied
             if it.attr_start != it.start:
                 rules['R1'] = rules.get('R1', 0) + 1
-            edits = rewrite_body(rf, it, d, rules, info)
-            body_raw = rf.src[it.body_open:it.end]
-            # shift edits to body-relative, dropping those in the signature (there are none by construction)
-            shift = it.body_open - it.start
-            bedits = [Edit(e.start - shift, e.end - shift, e.new, e.origin) for e in edits if e.start >= shift]
-            blines = apply_edits(body_raw, it.body_open, rf, bedits)
+            if getattr(d, 'opaque_body', False):
+                rules['R7b_opaque_bodies'] = rules.get('R7b_opaque_bodies', 0) + 1
+                rules.setdefault('R7b_lines', []).append(f'{d.file}:{it.line} {d.selector}: body not copied; contract assumed')
+                blines = [('{ unimplemented!() }', ('tmpl', d.tline))]
+            else:
+                edits = rewrite_body(rf, it, d, rules, info)
+                body_raw = rf.src[it.body_open:it.end]
+                # shift edits to body-relative, dropping those in the signature (there are none by construction)
+                shift = it.body_open - it.start
+                bedits = [Edit(e.start - shift, e.end - shift, e.new, e.origin) for e in edits if e.start >= shift]
+                blines = apply_edits(body_raw, it.body_open, rf, bedits)
             info.out_first = len(out)
             for a in d.attrs:
                 out.append(OutLine(a, ('tmpl', d.tline), name_out))
